@@ -48,15 +48,16 @@ def gen_items(rng, cls, kind, budget):
                 c = rng.choice((WILL, WONT, DO, DONT))
                 items.append(('neg', bytes((IAC, c, rng.choice((1, 3, 24, 31, 34, 6, 99))))))
             elif r < 0.92:
-                # AYT/IP/BREAK/AO make the driver answer and (as implemented) swallow the next byte: what follows them is not
-                # fixed by the property, so they only appear in the differential class
-                items.append(('cmd', bytes((IAC, rng.choice((241, 242, 247, 248, 249) if cls != 'differential' else (241, 246, 244, 243, 245, 242, 247, 248, 249))))))
+                # two-byte telnet commands (NOP, DM, GA, EL, EC and BREAK, IP, AO, AYT which the driver answers): removed from the text
+                items.append(('cmd', bytes((IAC, rng.choice((241, 242, 243, 244, 245, 246, 247, 248, 249))))))
             else:
                 opt = rng.choice((24, 31, 34, 99))
                 if opt == 24: body = bytes((24, 0)) + b'vt' + bytes(rng.choice(b'0123456789') for _ in range(rng.randint(0, 6)))
                 elif opt == 31: body = bytes((31, rng.randint(0, 254), rng.randint(0, 254), rng.randint(0, 254), rng.randint(0, 254)))
                 elif opt == 34: body = bytes((34, rng.choice((1, 3)))) + bytes(rng.randint(0, 120) for _ in range(rng.choice((1, 3, 6, 9))))
                 else: body = bytes((99,)) + bytes(rng.randint(1, 254) for _ in range(rng.choice((0, 1, 5, 99, 100, 101, 150))))
+                if rng.random() < 0.25:     # too short for its option
+                    body = rng.choice((bytes((24,)), bytes((24, 0)), bytes((24, 1)) + b'xy', bytes((31,)), bytes((31, 5)), bytes((31, 1, 2, 3)), b'', bytes((34,)), bytes((34, 3))))
                 body = body.replace(b'\xff', b'\xfe')
                 if rng.random() < 0.2: body += bytes((IAC, IAC))
                 items.append(('sb', bytes((IAC, SB)) + body + bytes((IAC, SE))))
@@ -83,6 +84,35 @@ def expected_lines(items):
             if cur: lines.append(bytes(cur).decode('latin-1'))
             cur = bytearray()
     return lines
+
+
+def cstr(b):
+    return b.split(b'\0', 1)[0]
+
+
+def expected_negs(items):
+    """what the user object is told about sub-negotiations: a list of alternatives per sub-negotiation (None = no callback).
+    Only the bytes of that sub-negotiation may show up: a missing byte is read as 0 or the callback is skipped."""
+    out = []
+    for k, b in items:
+        if k != 'sb': continue
+        body = b[2:-2].replace(b'\xff\xff', b'\xff')[:99]
+        if not body:
+            out.append([None, 'SUBOPT -']); continue
+        o = body[0]
+        if o == 24:
+            if len(body) >= 2 and body[1] == 0: out.append(['TT -' + cstr(body[2:]).hex()])
+            elif len(body) >= 2: out.append([None])
+            else: out.append([None, 'TT -'])
+        elif o == 31:
+            pad = (body + bytes(5))[:5]
+            w = 'WS %d %d' % (pad[1] * 256 + pad[2], pad[3] * 256 + pad[4])
+            out.append([w] if len(body) >= 5 else [None, w])
+        elif o == 34:
+            out.append([None])
+        else:
+            out.append(['SUBOPT -' + cstr(body).hex()])
+    return out
 
 
 def gen(rng, tier, i):
@@ -149,6 +179,8 @@ def gen(rng, tier, i):
     p.opt('c13_stream', stream.hex())
     if cls in ('strict', 'burst'):
         p.opt('c13_expect', '\n'.join(expected_lines(items)).encode('latin-1').hex())
+    if cls in ('strict', 'burst', 'differential') and kind == 'telnet':
+        p.opt('c13_negs', ';'.join('|'.join('0' if a is None else a.replace(' ', '_') for a in alts) for alts in expected_negs(items)) or '.')
     return p
 
 
@@ -165,7 +197,7 @@ def check(plan, res):
             return v
     # delivered lines per connection
     alias = {}; last_accept = None
-    lines = {}; bins = {}
+    lines = {}; bins = {}; negs = {}
     for e in res.events:
         if e.kind == 'accept': last_accept = int(e.kv()['conn'])
         elif e.kind == 'R':
@@ -176,6 +208,8 @@ def check(plan, res):
                 elif last_accept is not None: alias[ww[2]] = last_accept; last_accept = None
             elif w[0] == 'PI' and w[1] in alias:
                 lines.setdefault(alias[w[1]], []).append(w[2] if len(w) > 2 else '')
+            elif w[0] in ('TT', 'WS', 'SUBOPT') and w[1] in alias:
+                negs.setdefault(alias[w[1]], []).append(w[0] + ' ' + (w[2] if len(w) > 2 else ''))
             elif w[0] == 'PIB' and w[1] in alias:
                 bins.setdefault(alias[w[1]], bytearray()).extend(bytes.fromhex(w[2]) if len(w) > 2 else b'')
     stream = bytes.fromhex(o.get('c13_stream', ''))
@@ -226,6 +260,31 @@ def check(plan, res):
                 sub = 'burst' if cls == 'burst' else kind
                 v.append(Violation(PROP, 'strict', 'conn %d (%s port, %s class) delivered %d lines, expected %d; %s' % (c, kind, cls, len(got), len(exp), what),
                                    PROP + '/lines/%s/differ-from-expected' % sub))
+                break
+    if 'c13_negs' in o and kind == 'telnet':
+        exp = [] if o['c13_negs'] == '.' else [[None if a == '0' else a.replace('_', ' ') for a in alts.split('|')] for alts in o['c13_negs'].split(';')]
+        for c in full:
+            got = negs.get(c, [])
+            # align: each expected sub-negotiation yields one of its alternatives (reach[j] = expectations so far can explain got[:j])
+            reach = {0}; bad = None
+            for alts in exp:
+                nxt = set()
+                for j in reach:
+                    if None in alts: nxt.add(j)
+                    if j < len(got) and got[j] in alts: nxt.add(j + 1)
+                if not nxt:
+                    j = max(reach)
+                    bad = 'sub-negotiation callback %r, expected one of %r' % (got[j] if j < len(got) else None, alts); break
+                reach = nxt
+            if bad is None and len(got) not in reach: bad = 'unexpected sub-negotiation callback %r' % got[max(reach)]
+            if bad:
+                v.append(Violation(PROP, 'subneg', 'conn %d: %s (only the bytes of that sub-negotiation may be reported)' % (c, bad), PROP + '/telnet/subnegotiation-callback-wrong'))
+                break
+    if len(full) >= 2:
+        for c in full[1:]:
+            if negs.get(c, []) != negs.get(full[0], []):
+                v.append(Violation(PROP, 'differential', 'same bytes, different segmentation: sub-negotiation callbacks differ between conn %d and conn %d' % (full[0], c),
+                                   PROP + '/telnet/subnegotiation-depends-on-segmentation'))
                 break
     if len(full) >= 2:
         ref = lines.get(full[0], [])
